@@ -131,6 +131,9 @@ package annotateparser
 //@   props C16
 //@   ensures[function-node] typeis(result, "*annotateast.FuncType")
 //@   ensures[parameter-lists-aligned] len(as(result, "*annotateast.FuncType").ParamNameList) == len(as(result, "*annotateast.FuncType").ParamTypeList) && len(as(result, "*annotateast.FuncType").ParamNameList) == len(as(result, "*annotateast.FuncType").ParamOptionList)
+// a ": RETURN_TYPE" clause behind the closing parenthesis is always read - with or without parameters: a function type
+// that records no return type is not followed by ':'
+//@   ensures[return-clause-is-never-left-unread] len(as(result, "*annotateast.FuncType").ReturnTypeList) == 0 ==> l.aheadToken.valid && l.aheadToken.tokenKind != annotatelexer.ATokenSepColon
 //@   loop 1 invariant funType != nil && len(funType.ParamNameList) == len(funType.ParamTypeList) && len(funType.ParamNameList) == len(funType.ParamOptionList) && len(funType.ParamNameList) == len(funType.ParamNameLocList)
 //@   loop 2 invariant funType != nil && len(funType.ParamNameList) == len(funType.ParamTypeList) && len(funType.ParamNameList) == len(funType.ParamOptionList)
 //@ end
